@@ -526,12 +526,12 @@ MultiIndexSet addExclusiveChildren(const MultiIndexSet &tensors, const MultiInde
                     if (limited){
                         if ((*ilimit == -1) || (k <= *ilimit))
                             tens.appendStrip(kid);
-                        ilimit++;
                     }else{
                         tens.appendStrip(kid);
                     }
                 }
             }
+            if (limited) ilimit++; // the limit must follow the direction regardless of whether the kid was considered
             k--;
         }
     }
